@@ -147,6 +147,11 @@ def native_rank(rng):
     coll = np.repeat([0, 1], 12)
     if not np.allclose(V.svd_denoise_npx(d, rank=24, collection=coll), d, atol=1e-9):
         bad.append(("svd full rank per collection",))
+    # collections of unequal sizes, contiguous and interleaved, labels that are not 0..n-1
+    d48 = rng.standard_normal((48, 200))
+    for coll in (np.r_[np.zeros(36, int), np.ones(12, int)], np.r_[np.full(30, 7), np.full(12, 2), np.full(6, 9)], rng.permutation(np.r_[np.zeros(36, int), np.ones(12, int)]), np.arange(48) % 5):
+        if not np.allclose(V.svd_denoise_npx(d48, rank=48, collection=coll), d48, atol=1e-9):
+            bad.append(("svd full rank with collections of unequal sizes", np.bincount(coll).tolist()))
     return bad
 
 
@@ -247,6 +252,150 @@ def b_native(B):
     if not np.array_equal(fold, [3, 3, 3, 3]):
         bad.append(("fold without header",))
     B.case("stack_aggregates_fold_header", not bad, detail=bad[:6])
+
+
+# ----------------------------------------------------------------------------- svd_denoise_npx: rank share per collection, rows in == rows out
+def _svd_summary_log(log):
+    def summ(it, a, k):
+        x = A.as_sarr(a[0])
+        rk = k.get("rank", a[1] if len(a) > 1 else None)
+        out = A.fresh_array("svd_lowrank", "float64", x.shape)
+        log.append({"in": x.snapshot(), "shape": x.shape, "rank": term(rk), "out": out.snapshot()})
+        return out
+    return summ
+
+
+def replay_svd(vals, oid):
+    """full rank / single collection natively: unequal collection sizes, interleaved labels"""
+    rng = np.random.default_rng(3)
+    bad = []
+    for t in range(12):
+        nc = int(rng.integers(6, 40))
+        ns = int(rng.integers(nc + 5, 120))
+        d = rng.standard_normal((nc, ns))
+        ng = int(rng.integers(1, 4))
+        coll = np.sort(rng.integers(0, ng, nc)) if t % 2 else rng.integers(0, ng, nc)
+        coll[:max(1, nc // 2)] = coll[0]                         # unequal sizes
+        if "single_collection" not in oid and not np.allclose(V.svd_denoise_npx(d, rank=nc, collection=coll * 3 + 1), d, atol=1e-9):
+            bad.append({"nc": nc, "rank": nc, "collection_sizes": np.bincount(coll).tolist(), "what": "full rank changes the data"})
+        low = np.outer(rng.standard_normal(nc), rng.standard_normal(ns))
+        if "full_rank" not in oid and not np.allclose(V.svd_denoise_npx(low, rank=1), low, atol=1e-9):
+            bad.append({"nc": nc, "rank": 1, "what": "rank-one data not preserved at rank one"})
+    return {"failed": bool(bad), "examples": bad[:3]}
+
+
+@harness(PROPERTY, "svd_denoise_collections", functions=["ibldsp.voltage:svd_denoise_npx", "ibldsp.voltage:_svd_denoise"], replay=replay_svd,
+         clause="plain SVD denoising returns its input unchanged whenever the requested rank is at least the rank of the data (full rank), per channel collection")
+def h_svd(H):
+    import ast
+    from pyvc import interp as I
+
+    # ---- _svd_denoise: at rank >= min(shape) no singular vector / value is cut off (then U diag(s) V is the decomposition itself: A-LINALG)
+    S0 = H.session("svd.truncation")
+
+    def trunc(it):
+        m, n, rank = z3.Ints("m n rank")
+        it.ctx.assume(z3.And(m >= 1, n >= 1))
+        kk = z3.If(m <= n, m, n)
+        it.ctx.assume(rank >= kk)
+        x = A.fresh_array("datr", "float64", (m, n))
+        Um = A.fresh_array("U", "float64", (m, kk))
+        sg = A.fresh_array("sigma", "float64", (kk,))
+        Vm = A.fresh_array("Vh", "float64", (kk, n))
+        calls = []
+
+        def svd_summary(it_, a, k):
+            calls.append((A.as_sarr(a[0]), dict(k)))
+            return Um, sg, Vm          # A-LINALG: reduced SVD, datr == U @ diag(sigma) @ Vh
+        it.session.contracts[np.linalg.svd] = svd_summary
+        run_function(it, V._svd_denoise, [x, SV(rank)])
+        ml = getattr(it.ctx, "matmul_log", [])
+        if len(calls) != 1 or len(ml) != 2:
+            raise I.Unsupported("cannot identify decomposition and the two products in _svd_denoise()")
+        i, j = z3.Ints("i j")
+        it.ctx.oblige("svd.reduced_decomposition_of_the_input", z3.BoolVal(calls[0][0] is x and calls[0][1].get("full_matrices") is False), "post")
+        first, second = ml
+        it.ctx.oblige("svd.full_rank.keeps_all_left_vectors", z3.And(A.T(first["a_shape"][0]) == m, A.T(first["a_shape"][1]) == kk,
+                      A.forall([i, j], lambda: z3.Implies(z3.And(i >= 0, i < m, j >= 0, j < kk), first["a"]((i, j)) == Um.read((i, j))))), "post", assume=False)
+        it.ctx.oblige("svd.full_rank.keeps_all_singular_values", z3.And(A.T(first["b_shape"][0]) == kk, A.T(first["b_shape"][1]) == kk,
+                      A.forall([i, j], lambda: z3.Implies(z3.And(i >= 0, i < kk, j >= 0, j < kk), first["b"]((i, j)) == z3.If(i == j, sg.read((i,)), z3.RealVal(0))))), "post", assume=False)
+        it.ctx.oblige("svd.full_rank.keeps_all_right_vectors", z3.And(A.T(second["b_shape"][0]) == kk, A.T(second["b_shape"][1]) == n,
+                      A.forall([i, j], lambda: z3.Implies(z3.And(i >= 0, i < kk, j >= 0, j < n), second["b"]((i, j)) == Vm.read((i, j)))),
+                      A.forall([i, j], lambda: z3.Implies(z3.And(i >= 0, i < m, j >= 0, j < kk), second["a"]((i, j)) == first["out"]((i, j))))), "post",
+                      "(U diag(s)) Vh with every factor whole", assume=False)
+    S0.explore(trunc)
+
+    # ---- one symbolic iteration of the loop over collections
+    S = H.session("svd.collection")
+    FN = V.svd_denoise_npx
+
+    def body(it):
+        nc, ns, rank = z3.Ints("nc ns rank")
+        it.ctx.assume(z3.And(nc >= 1, ns >= 1, rank >= 1))
+        H.input(nc=nc, ns=ns, rank=rank)
+        data = A.fresh_array("datr", "float64", (nc, ns))
+        d0 = data.snapshot()
+        coll = A.fresh_array("collection", "int64", (nc,), ranged=False)
+        log = []
+        it.session.contracts[V._svd_denoise] = _svd_summary_log(log)
+        node, filename = I.SOURCES.funcdef(FN)
+        it.session.note_function(FN)
+        loops = [n_ for n_ in node.body if isinstance(n_, ast.For)]
+        if len(loops) != 1:
+            raise I.Unsupported("cannot identify the loop over collections of svd_denoise_npx()")
+        loop = loops[0]
+        before = node.body[:node.body.index(loop)]
+        env = I.Env(None, FN.__globals__, qualname="svd_denoise_npx", filename=filename)
+        env.funcnode = node
+        env.vars.update(dict(datr=data, rank=SV(rank), collection=coll))
+        it.ctx.func = env.qualname
+        it.exec_block(before, env)
+        out = env.vars.get("svd")
+        if not isinstance(out, A.SArr):
+            raise I.Unsupported("cannot identify the output array of svd_denoise_npx()")
+        # the iterable of the loop: the distinct collection labels
+        itv = it.eval(loop.iter, env)
+        uq = list(getattr(it.ctx, "unique_log", []))
+        if len(uq) != 1 or not isinstance(itv, A.SArr):
+            raise I.Unsupported("cannot identify the distinct collection labels in svd_denoise_npx()")
+        uq = uq[0]
+        g = z3.Int("g")
+        it.ctx.assume(z3.And(g >= 0, g < uq["m"]))
+        label = uq["values"](g)
+        o0 = out.snapshot()
+        it.assign(loop.target, SV(label), env)
+        it.exec_block(list(loop.body), env)
+        it.ctx.oblige("svd.one_decomposition_per_collection", z3.BoolVal(len(log) == 1), "post")
+        if len(log) != 1:
+            return
+        c = log[0]
+        r, t, q = z3.Ints("r t q")
+        member = lambda ch: coll.read((ch,)) == label      # noqa
+        size = A.T(c["shape"][0])
+        # rows handed to the decomposition: a bijection with the channels of this collection
+        rowch = z3.Function("row_channel", z3.IntSort(), z3.IntSort())
+        w = [x_ for x_ in it.ctx.where_log if x_["ndim"] == 1]
+        if not w:
+            raise I.Unsupported("cannot identify the selection of one collection's channels")
+        wi = w[-1]
+        it.ctx.oblige("svd.group_is_the_collection", A.forall([q], lambda: z3.Implies(z3.And(q >= 0, q < nc), wi["mask"]((q,)) == member(q))), "post", "the channels decomposed together are exactly those of one collection")
+        it.ctx.oblige("svd.group_size", z3.And(size == wi["count"], A.T(c["shape"][1]) == ns), "post")
+        it.ctx.oblige("svd.rank_share.full_rank_keeps_everything", z3.Implies(rank >= nc, c["rank"] >= size), "post",
+                      "when the requested rank is at least the number of channels, each collection is decomposed at a rank >= its own number of channels (nothing is cut off)")
+        it.ctx.oblige("svd.rank_share.single_collection_gets_the_requested_rank", z3.Implies(size == nc, c["rank"] == rank), "post",
+                      "without collections (one group holding every channel) the decomposition is truncated at the requested rank itself (a rank-one wavefield survives rank=1)")
+        # rows written == rows read, everything else untouched
+        itr = env.vars.get("itr")
+        if not isinstance(itr, A.SArr):
+            raise I.Unsupported("cannot identify the channel list of one collection (local 'itr')")
+        it.ctx.oblige("svd.rows_in", A.forall([r, t], lambda: z3.Implies(z3.And(r >= 0, r < size, t >= 0, t < ns), z3.And(member(itr.read((r,))), c["in"]((r, t)) == d0((itr.read((r,)), t))))), "post",
+                      "row r of the block decomposed is channel itr[r] of the input, a member of the collection", assume=False)
+        it.ctx.oblige("svd.rows_out", A.forall([r, t], lambda: z3.Implies(z3.And(r >= 0, r < size, t >= 0, t < ns), out.read((itr.read((r,)), t)) == c["out"]((r, t)))), "post",
+                      "the low-rank block is written back to the same channels, row for row", assume=False)
+        it.ctx.oblige("svd.frame", A.forall([q, t], lambda: z3.Implies(z3.And(q >= 0, q < nc, t >= 0, t < ns, z3.Not(member(q))), out.read((q, t)) == o0((q, t)))), "post",
+                      "channels of other collections are not written in this iteration", assume=False)
+        it.ctx.oblige("svd.input_untouched", A.forall([q, t], lambda: z3.Implies(z3.And(q >= 0, q < nc, t >= 0, t < ns), data.read((q, t)) == d0((q, t)))), "post", assume=False)
+    S.explore(body)
 
 
 # ----------------------------------------------------------------------------- stack: per-label aggregates
